@@ -287,6 +287,16 @@ theorem step_indices (n : Int) :
     tb_prop_step, tb_sys_step, tb_commit_step, cdwf_prop_step, cdwf_mpo_step, cdwf_caps_step,
     cdwf_final_caps_step, cd_prop_step, cd_mpo_step, Int.add_sub_cancel, and_self]
 
+/-- Labels: every (states, field) record `MeanFieldTempo.compute` adds to the dynamics is labelled
+    with the time of the ABSOLUTE step the backend returned with it (never a counter of the loop of
+    the current `compute` call), i.e. the record produced by the step that starts at grid point `n`
+    is stored at `t_{n+1}` — in a first call, a continued call or a retry alike; the initial record
+    is stored at the step `initialize()` returns. -/
+theorem recorded_labels (s dt : Rat) (n c r : Int) :
+    mft_label_step r c = r ∧ mft_init_label_step r = r ∧
+    mft_time s dt (mft_label_step (mftb_commit_step n) c) = gridT s dt (n + 1) :=
+  ⟨rfl, rfl, rfl⟩
+
 /-- the statement orders the models are written against -/
 theorem statement_order :
     mftOrderOK mftb_order = true ∧ cdwfOrderOK cdwf_loop_order = true ∧
